@@ -889,13 +889,27 @@ def run(scn, rng=None):
                 if (mrej is None) != (rexc is None):
                     if rexc is None:
                         rule = "C10.assigned_during_writeout" if fault == "construct_suspending" else "C02.construct.accepted"
-                        raise Violation(rule, {"cmd": cmd, "model": str(mrej)}, t)
+                        det = {"cmd": cmd, "model": str(mrej)}
+                        if mrej in ("cpu", "ram"):
+                            # a zero or negative size that gets in makes every sum the pool computes meaningless (a
+                            # negative one masks an oversized neighbour in the batch): C03's business as well
+                            det["also"] = [{"rule": "C03.nonpositive_size_accepted", "detail": {"cmd": cmd, "size": str(mrej)}}]
+                        raise Violation(rule, det, t)
                     raise Violation("EX.crash", {"where": "Assignment()", "cmd": cmd, "exc": repr(rexc)[:200]}, t)
                 if mrej is not None:
                     # the executor was never involved: the run goes on without this assignment (operators listed before
                     # the refused one stay ASSIGNED in model and implementation alike)
                     tick_sig.append("X:construct")
-                    _compare_states(built, t, "C02.refused_changed_state")
+                    try:
+                        _compare_states(built, t, "C02.refused_changed_state")
+                    except Violation as v_:
+                        # the same damage seen from C01's side: an operator that has started (or finished) must still have
+                        # all its parents completed after the refusal
+                        try:
+                            check_snapshot([(bi_, b_.p) for bi_, b_ in enumerate(built)], t, "after a refused Assignment")
+                        except Violation as v2:
+                            v_.detail = dict(v_.detail, also=[{"rule": v2.rule, "detail": v2.detail}])
+                        raise v_
                     _check_counts(built, t)
                     out["faults"]["continued_after_refused_assignment"] = out["faults"].get("continued_after_refused_assignment", 0) + 1
                     continue
@@ -1014,6 +1028,7 @@ def run(scn, rng=None):
                 checks += [lambda: _compare_states(built, t, "EX.states"), lambda: _check_counts(built, t),
                            lambda: _check_iteration_midrun(built, scn["pipes"], t),
                            lambda: _check_premature_completion(built, t), lambda: check_live(ex, t),
+                           lambda: check_snapshot([(bi_, b_.p) for bi_, b_ in enumerate(built) if b_.at <= t], t),
                            lambda: check_orphans(ex, [(bi_, b_.p) for bi_, b_ in enumerate(built) if b_.at <= t], t)]
             for chk in checks:
                 try:
@@ -1163,6 +1178,18 @@ def check_live(ex, t, okey=None):
                 seen[id(o)] = c.container_id
                 if o.state() not in (S.ASSIGNED, S.RUNNING, S.SUSPENDING, S.COMPLETED):
                     raise Violation("C02.live_state", {"op": k, "state": o.state().value, "container": c.container_id}, t)
+
+
+def check_snapshot(pipelines, t, when=None):
+    """C01 at any instant: an operator that is RUNNING or COMPLETED has only COMPLETED parents."""
+    for k, p in pipelines:
+        st = p.runtime_status().operator_states
+        for i, (o, s_) in enumerate(st.items()):
+            if s_.value in ("running", "completed"):
+                for q in o.parents:
+                    if st[q].value != "completed":
+                        raise Violation("C01.snapshot", {"pipeline": k, "op": i, "state": s_.value, "parent_state": st[q].value,
+                                                         "when": when}, t)
 
 
 def check_orphans(ex, pipelines, t, okey=None):
